@@ -227,6 +227,7 @@ class Cell(object):
         self.role, self.fkind, self.data, self.tmo = kind_info(kind, variant)
         self.rf_cmd_k = None
         self.first_read_k = None
+        self.ref_data = None              # what the undisturbed reference exchange returned
         self.rsplog = {}                  # k -> (octets of the regular response transfer, of its header)
         a = activate(driver, kind, R, prop, field_opts)
         self.init_failed = a == "init-failed"
@@ -275,6 +276,15 @@ def actions_for(sim, cmd, link, tier, role, kind, rsp=None):
     if sim.has_status(cmd):
         acts += [["status", s] for s in range(1, 256)]
         acts += [["status", 0]]
+        # the same status values with octets behind the status byte (the chip's buffer content): every value at the
+        # commands that deliver / fetch RF data in the thorough tier, a structured subset otherwise
+        if cmd in RF_DELIVERY_CMDS and tier != "quick":
+            vals = range(1, 256)
+        elif cmd in RF_DELIVERY_CMDS:
+            vals = STATUS_STRUCTURED
+        else:
+            vals = STATUS_FLAGS_ONLY if tier == "quick" else STATUS_STRUCTURED
+        acts += [["status+data", s] for s in vals]
     acts += [["fault", f] for f in S.faults_for(link)]
     if rsp is not None:
         acts += S.len_actions(link, rsp)
@@ -284,7 +294,7 @@ def actions_for(sim, cmd, link, tier, role, kind, rsp=None):
 
 
 def where_of(action, link=None, rsp=None):
-    if action[0] == "status":
+    if action[0] in ("status", "status+data"):
         return "rf-status"
     if action[0] == "rfoff":
         return "rf-off"
@@ -295,6 +305,20 @@ def where_of(action, link=None, rsp=None):
 
 
 RF_DELIVERY_CMDS = {0x40, 0x42, 0x86, 0x88, 0x8E, 0x90}      # the commands that hand RF data to / fetch it from the chip
+FLAGGED_STATUS_CMDS = {0x40, 0x86}       # InDataExchange / TgGetData: status = NAD (b7) | MI (b6) | error code (b5..0)
+# status values sent with octets behind them in the quick tier: flag bits only (low six bits zero), every single
+# bit, the documented error codes of the PN532/PN533 error table, the borders of the six bit error code field
+STATUS_FLAGS_ONLY = [0x40, 0x80, 0xC0]
+STATUS_STRUCTURED = sorted(set(STATUS_FLAGS_ONLY + [1 << i for i in range(8)] + [
+    0x01, 0x02, 0x03, 0x04, 0x05, 0x06, 0x07, 0x09, 0x0A, 0x0B, 0x0D, 0x0E, 0x10, 0x12, 0x13, 0x14, 0x23, 0x25, 0x26,
+    0x27, 0x29, 0x2A, 0x2B, 0x2C, 0x2D, 0x2E, 0x31, 0x3F, 0x41, 0x7F, 0x81, 0xBF, 0xC1, 0xFE, 0xFF]))
+
+
+def error_status(cmd, s):
+    """True if status byte s of RF exchange command cmd reports an error (no valid RF data): the whole byte for
+    InCommunicateThru / TgGetInitiatorCommand / TgResponseToInitiator / TgSetData, the six bit error code for
+    InDataExchange / TgGetData whose bits 7 and 6 are the NAD and MI flags"""
+    return bool(s & 0x3F) if cmd in FLAGGED_STATUS_CMDS else bool(s & 0xFF)
 
 
 def hostlink_clause(R, drv, link, role, action, cmd, name, tag, got, case, exc, at_rf=False, stage="exchange", kind=None):
@@ -325,7 +349,7 @@ def hostlink_clause(R, drv, link, role, action, cmd, name, tag, got, case, exc, 
     return True
 
 
-def judge_c13(R, cell, k, action, cmd, out, exc, follow=False):
+def judge_c13(R, cell, k, action, cmd, out, exc, follow=False, data=None):
     """apply the C13 oracle to one outcome; returns True if a violation was recorded"""
     from vf.sim.chipsets import pn53x as S
     drv = cell.driver
@@ -359,7 +383,35 @@ def judge_c13(R, cell, k, action, cmd, out, exc, follow=False):
     if hostlink_clause(R, drv, cell.sim.link, cell.role, action, cmd, name, tag, got, case, exc,
                        at_rf=(cmd in RF_DELIVERY_CMDS)):
         return True
-    if action == ["status", 1] and cell.role == "ini" and k == last_rf and cmd in (0x40, 0x42):
+    if action[0] in ("status", "status+data") and cmd in RF_DELIVERY_CMDS:
+        # the chip's verdict on the RF exchange: status 00h -> the received data, exactly; an error status -> never
+        # "data received" (what follows the status byte is buffer content, not something the other side sent)
+        s = action[1] & 0xFF
+        behind = "with-payload" if action[0] == "status+data" else "bare"
+        R.count("%s_c13_rf_status_%s_checked" % (drv, behind.replace("-", "_")))
+        R.count("pn53x_c13_rf_status_sweep_%s" % name)
+        R.seen("pn53x_c13_rf_status_cells", "%s/%s/%s/%s" % (drv, cell.kind, name, behind))
+        if s == 0:
+            R.count("%s_c13_status00_data_checked" % drv)
+            if tag != "data" or data != cell.ref_data:
+                R.violation("%s/status00/not-the-received-data@%s->%s" % (drv, name, got),
+                            "%s %s: status 00h of %s did not come back as the received data (%s)" % (
+                                drv, cell.kind, name, got if tag != "data" else "other octets"), case)
+                return True
+        elif error_status(cmd, s):
+            R.count("%s_c13_error_status_never_data_checked" % drv)
+            if s & 0x3F == 0:
+                R.count("%s_c13_error_status_flag_bits_only_checked" % drv)
+            if tag == "data":
+                cls = "flag-bits-only" if s & 0x3F == 0 else "error-code"
+                R.violation("%s/class/error-status-as-data/%s/%s@%s" % (drv, cls, behind, name),
+                            "%s %s: %s answered with error status %02Xh but clf.exchange() returned %d octets as "
+                            "received data instead of raising an nfc.clf.CommunicationError" % (
+                                drv, cell.kind, name, s, len(data)), case)
+                return True
+        else:
+            R.count("%s_c13_flagged_success_status_seen" % drv)      # InDataExchange/TgGetData 40h/80h/C0h: MI / NAD
+    if action in (["status", 1], ["status+data", 1]) and cell.role == "ini" and k == last_rf and cmd in (0x40, 0x42):
         R.count("%s_c13_finer_checked" % drv)
         if got != "TimeoutError":
             R.violation("%s/class/status01@%s->%s" % (drv, name, got),
@@ -373,7 +425,7 @@ def judge_c13(R, cell, k, action, cmd, out, exc, follow=False):
                         "%s %s: no response within the time-out of %s surfaced as %s, not nfc.clf.TimeoutError" % (
                             drv, cell.kind, name, got), case)
             return True
-    if action[0] == "status" and cell.role == "tgt" and cmd == 0x88 and (
+    if action[0] in ("status", "status+data") and cell.role == "tgt" and cmd == 0x88 and (
             (action[1] == 0x29 and variant in ("pn532", "pn533", "rcs956")) or (action[1] == 0x31 and variant == "rcs956")):
         R.count("%s_c13_finer_checked" % drv)
         if got != "BrokenLinkError":
@@ -457,6 +509,7 @@ def run_cell_c13(R, driver, kind, tier, rng, only=None, variant=0):
     cell.rf_cmd_k = rf[-1] if rf else None
     cell.first_read_k = (cmds.index(0x06) + 1) if 0x06 in cmds else None
     cell.rsplog = dict(sim.rsplog)
+    cell.ref_data = data
     if sorted(cell.rsplog) != list(range(1, n + 1)):
         R.inconc("%s/%s: the simulator did not log a regular response for every host command of the reference exchange" % (driver, kind))
         return
@@ -489,7 +542,7 @@ def run_cell_c13(R, driver, kind, tier, rng, only=None, variant=0):
                 R.count("%s_c13_action_not_delivered" % driver)
                 continue
             where = where_of(action, link, cell.rsplog.get(k))
-            cls = "%s/%s/%s/%s" % (kind, S.NAMES.get(cmd, cmd), "status" if action[0] == "status" else where, ":".join(str(x) for x in out))
+            cls = "%s/%s/%s/%s" % (kind, S.NAMES.get(cmd, cmd), action[0] if action[0].startswith("status") else where, ":".join(str(x) for x in out))
             R.seen("%s_c13_outcomes" % driver, cls)
             if len(action) > 2 and action[1] == "surplus":
                 R.count("%s_c13_surplus_delivered" % driver)
@@ -500,7 +553,7 @@ def run_cell_c13(R, driver, kind, tier, rng, only=None, variant=0):
             R.count("pn53x_c13_outcome_" + out[0])
             case0 = {"family": "pn53x_family", "driver": driver, "kind": kind, "variant": variant, "k": k, "action": action, "follow": False}
             check_bad_writes(R, sim, driver, case0, "c13")
-            bad = judge_c13(R, cell, k, action, cmd, out, exc)
+            bad = judge_c13(R, cell, k, action, cmd, out, exc, data=data)
             if R.evals % 997 == 0:
                 R.sample({"driver": driver, "kind": kind, "k": k, "command": S.NAMES.get(cmd), "action": action,
                           "outcome": list(out)})
